@@ -332,6 +332,11 @@ def check(ck):
     holders = {"_mutex_for_invocation"} | _mutex_holding_context_managers(ck, mod)
     mutex_wrappers = {h[6:] for h in holders if h.startswith("mutex:")}
     def holds_own_mutex(e):
+        if isinstance(e, ast.Name) and rl.nodes(e):
+            # `m = _mutex_for_invocation(x)` ... `with m:`
+            x0 = rl.expand(e)
+            if not isinstance(x0, ast.Name):
+                return holds_own_mutex(x0)
         if isinstance(e, ast.Call) and A.call_attr(e) in holders and [A.norm(a) for a in e.args] == [inv]:
             return True
         if not helper_exists:
